@@ -518,11 +518,14 @@ class MPSBackendImpl:
             return
 
         basename = self.autosave_file
-        with open(basename.with_suffix(".new"), "wb") as file_handle:
+        # append (not replace) the suffix: a resumed run may advertise any file name,
+        # also one ending in ".new", and the temporary file must never be that file
+        new_file = basename.with_name(basename.name + ".new")
+        with open(new_file, "wb") as file_handle:
             pickle.dump(self, file_handle)
         # os.replace is atomic on POSIX and Windows: at every instant the advertised
         # file is either the previous or the new complete snapshot.
-        os.replace(basename.with_suffix(".new"), basename)
+        os.replace(new_file, basename)
         autosave_filesize = os.path.getsize(self.autosave_file) / 1e6
 
         self.last_save_time = time.time()
